@@ -17,7 +17,9 @@ def dump_value(v):
             return [S('nan')]
         if math.isinf(v):
             return [S('inf')] if v > 0 else [S('ninf')]
-        f = Fraction(v)
+        # the decimal value of the shortest round-trip representation (what the token says), not the binary expansion:
+        # the model computes in exact rationals and Python prints shortest representations
+        f = Fraction(repr(v))
         return [S('f'), f.numerator, f.denominator]
     if isinstance(v, str):
         return [S('s'), str(v)]
